@@ -232,3 +232,15 @@ _R12 = {
 for _k, (_t, _l) in _R12.items():
     _a, _b, _c = CLAIMED[_k]
     CLAIMED[_k] = (_a + _t, _b + _l, _c)
+
+_R13 = {
+ "C06": ("; no reviewed exception left in GS (the shared err of IUniqueSequence repaired)", ""),
+ "C10": ("; adjacent modifiers refused by CheckPattern (CG, clang)", " Also decides that the table of refused pairs of CheckPattern holds the pairs the encoder and the complement cut differently."),
+ "C11": ("; CG", ""),
+ "C16": ("; presence test of multi-value options (HC), no unchecked assertion in the setters (TA), floats matched as written (FT)",
+         " Also decides that --cut with one neutral bound is not ignored, that a -S value of any type does not panic SetAttribute, and that -a sees a float as the record writes it."),
+ "C17": ("; a read error is fatal before the channel is closed (RE-9)", ""),
+}
+for _k, (_t, _l) in _R13.items():
+    _a, _b, _c = CLAIMED[_k]
+    CLAIMED[_k] = (_a + _t, _b + _l, _c)
